@@ -241,6 +241,23 @@ func ksStress(ks *didcrypto.KeyStore, findings *[]finding) int {
 	for i := 0; i < 4; i++ {
 		worker(func() { ks.Load(p0, "wrong") })
 	}
+	// a reader of an address that is being (re)saved must get the key, a wrong-password / not-found error, never a
+	// half-written file (Save must exclude readers)
+	var torn atomic.Value
+	for i := 0; i < 4; i++ {
+		i := i
+		worker(func() {
+			_, err := ks.LoadByAddress(fmt.Sprintf("saver-%d", i), "pw")
+			if err != nil && (strings.Contains(err.Error(), "fail to decode encryptedKey") || strings.Contains(err.Error(), "unexpected end") || strings.Contains(err.Error(), "EOF")) {
+				torn.CompareAndSwap(nil, err.Error())
+			}
+		})
+	}
+	defer func() {
+		if t := torn.Load(); t != nil {
+			*findings = append(*findings, finding{Clause: "C20-keystore-torn-read", Detail: "LoadByAddress, concurrent with Save of the same address, read a half-written key file: " + t.(string), Cmd: "4 x Save(saver-i), 4 x LoadByAddress(saver-i)"})
+		}
+	}()
 	// the error paths: an address without any key file, a path that does not exist, a file that is not a key file
 	worker(func() { ks.LoadByAddress("no-such-address", "pw"); time.Sleep(20 * time.Millisecond) })
 	worker(func() { ks.Load(p0+".missing", "pw"); time.Sleep(20 * time.Millisecond) })
